@@ -59,6 +59,11 @@ func main() {
 			}
 		}
 		runC12(seed, envInt("VERIF_CASES", 150), os.Args[2], rs, has)
+	case "c13one":
+		if len(os.Args) < 4 {
+			os.Exit(2)
+		}
+		runC13One(os.Args[2], os.Args[3])
 	case "c13":
 		runC13(seed, envInt("VERIF_CASES", 2000), os.Args[2], os.Getenv("VERIF_REPLAY"))
 	default:
